@@ -1163,7 +1163,11 @@ class SessionTransaction(_StateChange, TransactionalContext):
             parent._new.update(self._new)
             parent._dirty.update(self._dirty)
             parent._deleted.update(self._deleted)
-            parent._key_switches.update(self._key_switches)
+            for s, (oldkey, newkey) in self._key_switches.items():
+                if s in parent._key_switches:
+                    # keep the key the enclosing transaction began with
+                    oldkey = parent._key_switches[s][0]
+                parent._key_switches[s] = (oldkey, newkey)
 
     @_StateChange.declare_states(
         (SessionTransactionState.ACTIVE,), _StateChangeStates.NO_CHANGE
